@@ -5,6 +5,7 @@ mod c11;
 mod c12;
 mod gen;
 mod seqs;
+mod c19;
 mod kmers;
 mod val;
 
@@ -46,6 +47,7 @@ fn main() {
         "C15" => seqs::c15(&mut out, &mut rng, &tier),
         "C17" => seqs::c17(&mut out, &mut rng, &tier),
         "C18" => seqs::c18(&mut out, &mut rng, &tier),
+        "C19" => c19::c19(&mut out, &mut rng, &tier),
         _ => {
             eprintln!("unknown property {}", prop);
             std::process::exit(2);
